@@ -21,19 +21,19 @@ CHECKS = {
          "qha trusted as a library; spectra polynomial in ln V so the interpolant is exact; finite-difference pieces accepted within twice the reference's own analytic-vs-grid difference", "deviation-bounded exhaustive enumeration of configurations on the implementation, oracle = independent reference pipeline", "6 C05"),
  "C06": ("complete product of 3 data sets x 3 temperature grids x 4 inside pressure grids: every modulus/compliance/average/velocity/volume at every (T,P) node against an independent spline along the isotherm, pressure round trip, exact conversion of cubic-in-P fields, attribute spellings select the right tensor; 51 overshooting grids (>=2x reach, and between the coldest and hottest isotherm's reach) must be rejected; every returned table re-verified after all others were requested (no shared buffer), sparse sampling strides, grids with P_MIN>0 overshooting by less than P_MIN",
          "qha's P(T,V), V(T,P) trusted; tolerance 25% of the local cell variation", "exhaustive enumeration of grid configurations x all quantities x all grid nodes on the implementation", "6 C06"),
- "C16": ("small-scope complete merge exploration: all 144^2 (user, default) dictionary pairs over {a,b}x{1,2} depth<=2 (21609x144 thorough) against a leaf-path reference, input snapshots, idempotence; every leaf subset of the shipped settings against the packaged defaults; 395 single-field perturbations of every documented field x 4 base files with verdicts transcribed from the statement/docs; YAML/JSON spellings; operation sequences (<=3) for module-state isolation",
+ "C16": ("small-scope complete merge exploration: all 144^2 (user, default) dictionary pairs over {a,b}x{1,2} depth<=2 (21609x144 thorough) against a leaf-path reference, input snapshots, idempotence; every leaf subset of the shipped settings against the packaged defaults; 395 single-field perturbations of every documented field x 4 base files with verdicts transcribed from the statement/docs; YAML/JSON spellings; operation sequences (<=3) for module-state isolation; None and falsy scalars as ordinary leaves on both sides (746 496 pairs quick, 9.0 M thorough); every path of the shipped files set to 15 values one at a time",
          "verdict table transcribed by hand from the property statement and docs (not from the schema); cases the statement leaves open are executed but not asserted", "small-scope exhaustive enumeration of nested dictionaries and single-field perturbations + history BFS", "6 C16"),
- "C17": ("complete product of 27 phonon-file shapes x 4 value families x count variants through write_energy/read_energy with an independent parser; 1296 static-table layouts through read_elast_data; cij fill command round trip for 9 systems x number styles x presentations (1 deviation quick / full product thorough) incl. fill applied to its own output (depth 2); shipped files",
+ "C17": ("complete product of 27 phonon-file shapes x 4 value families x count variants through write_energy/read_energy with an independent parser; 1296 static-table layouts through read_elast_data; cij fill command round trip for 9 systems x number styles x presentations (1 deviation quick / full product thorough) incl. fill applied to its own output (depth 2); shipped files; over-determined slightly inconsistent tables against an own least-squares reference; mode-B histories {write X/Y to p, read p/q, fill, mutate} in unique / fixed / relative path modes for both readers",
          "io_ref parsers/writers; per-system dependent components hard-coded from Nye", "exhaustive enumeration of file shapes/layouts on the implementation + depth-2 command chains, oracle = independent parser", "6 C17"),
- "C19": ("extract: every request position class (nodes, both sides of midpoints, outside) x variable counts x -T/-P x header options on asymmetric non-square tables (every node and midpoint side along whole axes in thorough); file selection among all 51 documented names; extract-geotherm: 3 path kinds x 1/3/50 points x column layouts on bicubic (exact) and smooth (refinement ladder 21/41/81 with spline bound) tables",
+ "C19": ("extract: every request position class (nodes, both sides of midpoints, outside) x variable counts x -T/-P x header options on asymmetric non-square tables (every node and midpoint side along whole axes in thorough); file selection among all 51 documented names; extract-geotherm: 3 path kinds x 1/3/50 points x column layouts on bicubic (exact) and smooth (refinement ladder 21/41/81 with spline bound) tables; all 24 header orders of five 4-column geotherm families with case-colliding decoy columns; mode-B command histories over two result directories and a table rewrite in one process",
          "tables_ref writer byte-identical to qha's save_x_tp (selftest); spline error bound from the analytic derivatives", "exhaustive enumeration of request positions/layouts through the real CLI, oracle = analytic table functions", "6 C19"),
- "C20": ("evec_sort: all n! permutations x all 4^n phase vectors x 5 unitary bases x 7 perturbation kinds x 3 containers for n=2..4 (n=5 thorough), cyclic shifts and transpositions for n=12, 60; arbitrary orthonormal pairs incl. exact-zero overlaps for the 'always a permutation' clause; all 242 off-by-one dimension mismatches; disp2eig over bases x masses x scalings x shapes; evec_load over n_q x n_p with a distinct number in every slot",
+ "C20": ("evec_sort: all n! permutations x all 4^n phase vectors x 5 unitary bases x 7 perturbation kinds x 3 containers for n=2..4 (n=5 thorough), cyclic shifts and transpositions for n=12, 60; arbitrary orthonormal pairs incl. exact-zero overlaps for the 'always a permutation' clause; all 242 off-by-one dimension mismatches; disp2eig over bases x masses x scalings x shapes; evec_load over n_q x n_p with a distinct number in every slot; row norms over 24 decades and light/kg masses; input-immutability for six input presentations; all sequences of <=3 conversions on one array; load histories over rewritten and relative paths",
          "deterministic unitary bases and perturbations (no randomness); matdyn writer byte-identical to the shipped test files (selftest)", "exhaustive enumeration of permutations x phase vectors (bounded n) on the implementation", "6 C20"),
  "C07": ("complete product of 9 crystal-system tensor shapes x 3 magnitudes x zero-extras x 2 grids x 3 cell masses x 2 key orders on a duck calculator driving the real _calculate_compliances / CijVolumeBaseInterface, plus 24 real Calculators; at every positive-definite grid point K/G Voigt, Reuss, Hill vs C_iijj, C_ijij, S_iijj, S_ijij of the full fourth-rank tensor, bounds, s*c=1, rho v^2 identities in SI; all 4096 subsets of the twelve non-orthotropic components; all ordered sequences of <=2 (<=3) attribute reads (incl. 4-index names) on one interface vs fresh objects; ordered pairs/triples of real Calculators alive together",
          "tensor_ref (rotational invariants selftest); CODATA constants; stiffness values on the stated alphabets", "exhaustive enumeration of tensor-shape/grid/mass alphabets on the implementation, oracle = full fourth-rank tensor algebra", "6 C07"),
  "C11": ("full product of 24 (method, admissible order) pairs x n_V {6,7,8,12} (+{5,9,10} thorough) x 7 data laws (power law, polynomial in ln V of degree 1-5, Morse-like) x {inside, x1.2 extended grid} x shapes incl. square (3,3): exactness for power-law (and polynomial for lsq_poly) data against analytic triples, mutual consistency of the triple through integral identities, Gamma acoustic slots zero, no slot mixing, no NaN; mode plot n=0,1,2 through the real Calculator._interpolate_modes + ModePlotter with a recording axes",
          "analytic laws validated by 40-digit differentiation (selftest); quadrature on 2001 points with an a-posteriori bound", "exhaustive enumeration of interpolation configurations on the implementation, oracle = analytic triples and quadrature identities", "6 C11"),
- "C18": ("deviation lattice (<=2 quick, full product thorough: 3894 invocations) over mode x grid size x pressure range x sampling x static-table/system option x cell mass x 3 energy data sets x volume counts through the real run-static command; every printed cell (V, F, P, density, c_ij, VRH averages, v_p, v_s, v_phi) against an independent quadratic finite-strain fit with analytic derivative, hand unit factors and tensor_ref, with discretisation bounds from the reference's own derivatives",
+ "C18": ("deviation lattice (<=2 quick, full product thorough: 3894 invocations) over mode x grid size x pressure range x sampling x static-table/system option x cell mass x 3 energy data sets x volume counts through the real run-static command; every printed cell (V, F, P, density, c_ij, VRH averages, v_p, v_s, v_phi) against an independent quadratic finite-strain fit with analytic derivative, hand unit factors and tensor_ref, with discretisation bounds from the reference's own derivatives; volume-block orders of INPUT01, row orders of INPUT02, --v-ratio values, explicit non-dyadic pressure requests",
          "static_ref (own fit, own inverse interpolation, own symmetry fill); bounds are Taylor remainders propagated through the spline", "deviation-bounded / full-product exhaustive enumeration of CLI configurations on the implementation", "6 C18"),
  "C12": ("deviation lattice over 24 (method, admissible order) pairs x 10 system settings x 5 temperature grids (DT 0.5..500 K, T_MIN>=0) x 3 component sets x 3 spectra x shapes x lattice block, every configuration schema-validated and run through the real Calculator (<=2 deviations quick; full product of the 5 core dimensions thorough): dtype float64, finite isothermal everywhere, adiabatic where C_V>0 or T=0, averages/velocities where positive definite, zero gap at T=0, low-T limit",
          "well-formed synthetic inputs; positive definiteness by Cholesky of the reported stiffness", "deviation-bounded / full-product exhaustive enumeration of valid configurations on the implementation", "6 C12"),
@@ -43,9 +43,9 @@ CHECKS = {
          "goldens from fresh interpreters; hash seeds and cwd contents are finite menus; pint caches excluded from the state digest", "history BFS over operation sequences + all order-preserving interleavings of two operation lists on the implementation; subprocess enumeration of hash seeds x cwd contents", "6 C14"),
  "C15": ("complete product of 4 grids x 3 component sets x 2 bases: every keyword and alias of the writer rules written through the real ResultsWriter and re-read by an independent parser: file names, row/column labels on the requested grids in GPa / A^3, values = in-memory arrays in the documented unit, aliases byte-identical, adiabatic vs isothermal selection, one file per component, unit and file-name overrides, write_output() section handling; 6 grids incl. DT_SAMPLE != DT; all ordered sequences of <=2 (<=3) requests from a 10-letter alphabet through ONE writer, request objects unchanged, also after the same objects were written on the other base",
          "expected names/units transcribed from the documented table; CODATA unit factors", "exhaustive enumeration of keywords x bases x grids on the implementation, oracle = independent parser + in-memory results", "6 C15"),
- "C08": ("part 1 decided exactly: for each of the 9 systems the Laue rotation group is closed by BFS from exact generators over Q(sqrt3) (orders 1/2/4/4/8/3/6/12/24), every group element x every basis vector of the relations' null space (inclusion) and the Reynolds average of each of the 21 unit tensors against every packaged relation (reverse inclusion), dimensions 21/13/9/7/6/7/6/5/3; part 2: fill_cij on every sufficient subset of the non-vanishing components (all 5584 in thorough; 4 small systems complete + boundary layers in quick) x n_V {1,2,5} returns the invariant tensor; apply_symetry_on_elast_data on minimal/full sets",
+ "C08": ("part 1 decided exactly: for each of the 9 systems the Laue rotation group is closed by BFS from exact generators over Q(sqrt3) (orders 1/2/4/4/8/3/6/12/24), every group element x every basis vector of the relations' null space (inclusion) and the Reynolds average of each of the 21 unit tensors against every packaged relation (reverse inclusion), dimensions 21/13/9/7/6/7/6/5/3; part 2: fill_cij on every sufficient subset of the non-vanishing components (all 5584 in thorough; 4 small systems complete + boundary layers in quick) x n_V {1,2,5} returns the invariant tensor; apply_symetry_on_elast_data on minimal/full sets; row-label presentations (default/reversed/offset index); value shapes with a parameter crossing zero x drop_atol {1e-8, 0.1, 1.0}; vanishing components listed as zeros; mode-B histories over shared settings-dict objects",
          "sympy exact arithmetic; sufficiency decided by rank of the coordinate projection of the invariant subspace (laue_ref), independent of fill_cij", "explicit-state closure of finite groups + exhaustive subset enumeration on the implementation, exact linear-algebra oracle", "6 C08"),
- "C09": ("refusal <=> (insufficient and not ignore_rank) or (inconsistent and not ignore_residuals) over every subset of the non-vanishing components of 8 systems (thorough: 483456 fills; quick: small systems complete + boundary layers) x 4 flag combinations x {consistent, inconsistent below/above tolerance}; presentation deviation lattice (dtype, case, column order, extra columns, cwd contents incl. directory named like the system and user-written relations file, drop_atol) <=2 (<=3 thorough); the cij fill command; depth-3 chains fill/CLI; on acceptance: movement and relation bounds, pass-through, drop rule, presentation independence",
+ "C09": ("refusal <=> (insufficient and not ignore_rank) or (inconsistent and not ignore_residuals) over every subset of the non-vanishing components of 8 systems (thorough: 483456 fills; quick: small systems complete + boundary layers) x 4 flag combinations x {consistent, inconsistent below/above tolerance}; presentation deviation lattice (dtype, case, column order, extra columns, cwd contents incl. directory named like the system and user-written relations file, drop_atol) <=2 (<=3 thorough); the cij fill command; depth-3 chains fill/CLI; on acceptance: movement and relation bounds, pass-through, drop rule, presentation independence; supplied vanishing components (zeros / one non-zero / complete 21-column tables) crossed with flags, through fill_cij and the CLI; row-label and value-shape dimensions",
          "laue_ref sufficiency oracle; perturbations >= 8x away from the tolerance under both readings of 'residual'; triclinic subsets limited to |S| 19..21", "exhaustive subset x flag enumeration + deviation lattice + depth-3 operation chains on the implementation", "6 C09"),
  "C10": ("complete enumeration of the finite domain (81 tuples, 36 Voigt pairs, all spellings, 81x81 equality pairs, out-of-range neighbours) with the orbit graph explored by BFS; decides the property outright because the domain is finite; numpy integer spellings; 694 out-of-range neighbours",
          "reference orbits from voigt_ref (union of generator images); CPython hashing", "exhaustive enumeration of the finite index domain + BFS of the orbit graph against a reference quotient", "6 C10"),
